@@ -7,13 +7,13 @@ import RxModel.Model.Program
 import RxModel.Model.Api
 namespace Rx
 
-/-- `ReCompiler::compile`; `optimizeOn = false` is the verification hook's path -/
-def compileProg (env : Env) (fl : Flags) (pattern : List Nat) (optimizeOn : Bool) : Out Prog :=
+/-- `ReCompiler::compile` after the whitespace pre-pass; `optimizeOn = false` is the verification
+    hook's path -/
+def compileCore (env : Env) (fl : CFlags) (pat : List Nat) (optimizeOn : Bool) : Out Prog :=
   if fl.literal then
-    let seq := makeSequence (.atom pattern) .endProgram
-    if optimizeOn then .ok (mkProgram pattern seq 1 fl false) else .ok (mkBareProgram pattern seq 1 fl false)
+    let seq := makeSequence (.atom pat) .endProgram
+    if optimizeOn then .ok (mkProgram pat seq 1 fl false) else .ok (mkBareProgram pat seq 1 fl false)
   else
-    let pat := if fl.allowWs then stripWs pattern 0 false else pattern
     let c : PC := { pat := pat, fl := fl, env := env }
     match parseExpr c (4 * pat.length + 16) {} true with
     | .err e => .err e
@@ -21,6 +21,10 @@ def compileProg (env : Env) (fl : Flags) (pattern : List Nat) (optimizeOn : Bool
       if s.idx != pat.length then .err .syntax else
       if optimizeOn then .ok (mkProgram pat (optimize env fl op) s.parens fl s.hasBackrefs)
       else .ok (mkBareProgram pat op s.parens fl s.hasBackrefs)
+
+/-- `ReCompiler::compile`: flag x strips whitespace first (not for a literal pattern) -/
+def compileProg (env : Env) (fl : Flags) (pattern : List Nat) (optimizeOn : Bool) : Out Prog :=
+  compileCore env fl.core (if !fl.literal && fl.allowWs then stripWs pattern 0 false else pattern) optimizeOn
 
 /-- `Regex::new(re, flags, language)` -/
 def Regex.new (env : Env) (pattern flags : List Nat) (xsd : Bool) (optimizeOn : Bool := true) : Out Regex :=
